@@ -158,7 +158,13 @@ fn case1<T: Elem>(case: u64, spline: bool, args: &Args, ev: &mut Ev, log: &mut E
     let mut rng = Rng::derive(args.seed, "C15", &[case]);
     let extrapolate = rng.chance(0.4);
     // dyadic-grid axis so that shifts are exact; data arbitrary
-    let n = if spline { pick_n(&mut rng, 3, 24) } else { pick_n(&mut rng, 2, 24) };
+    let n = if case % 70 == 13 {
+        *rng.pick(&[65usize, 257, 513])
+    } else if spline {
+        pick_n(&mut rng, 3, 24)
+    } else {
+        pick_n(&mut rng, 2, 24)
+    };
     let (x, ks, s) = grid_axis::<T>(&mut rng, n);
     let lanes = gen_lane_shape(&mut rng, 2, false);
     let mut shape = vec![n];
